@@ -53,6 +53,10 @@ type c08Line struct {
 }
 
 var c08Table = map[string]c08Line{
+	"ast.Walk:n.Files": { // C20
+		why:     "the *ast.Package case of Walk: format.Source/format.Node hand the printer a file or a node inside one — printer.printNode rejects any other node type, *ast.Package included (\"unsupported node type\") — so no walk on the formatting path starts at, or reaches, a package",
+		callees: []string{"ast.Walk"},
+	},
 	"cl.gmxCheckProjs:ctx.projs": {
 		why:     "per-project work only: the first-main/first-no-main choice is observable only when it is unique (NewPackage ignores the project's identity when `multi` is reported), and gmxProjMain registers loaders keyed by the project's own class name; what is emitted is decided later by the (sorted) load order",
 		callees: []string{"cl.gmxProject.hasMain", "cl.gmxProjMain"},
@@ -122,7 +126,7 @@ func runC08(c *core.Check) {
 		return
 	}
 	set, pred := g.reachable([]*ssa.Function{root}, func(f *ssa.Function) bool {
-		return inModule(f) && f.Name() != "init" && !strings.HasPrefix(f.Name(), "init#")
+		return inModule(f) && !isPkgInit(f)
 	})
 	c.Analysed("functions_reachable_from_NewPackage", len(set))
 	type gw struct {
@@ -132,7 +136,7 @@ func runC08(c *core.Check) {
 	}
 	var writes []gw
 	for f := range set {
-		if f.Name() == "init" || strings.HasPrefix(f.Name(), "init#") {
+		if isPkgInit(f) {
 			continue
 		}
 		for _, b := range f.Blocks {
